@@ -306,7 +306,12 @@ func (w *walker) seq(tag string, v reflect.Value) string {
 
 // describe returns "(case (heap (1 v) ...) v)".
 func describe(v reflect.Value) (sexp string, unordered bool, unsup string) {
-	w := &walker{ids: map[ptrKey]int{}}
+	return describeWith(&walker{ids: map[ptrKey]int{}}, v)
+}
+
+// describeWith uses (and extends) the pointer identities already known to w, so that several
+// values described one after another share one heap.
+func describeWith(w *walker, v reflect.Value) (sexp string, unordered bool, unsup string) {
 	root := w.walk(v)
 	var sb strings.Builder
 	sb.WriteString("(case (heap")
